@@ -44,6 +44,8 @@ pub fn sections(ctx: &Ctx) -> Vec<(&'static str, u64)> {
         // (twice: a two-element order has to differ between six executions, which fails to
         // happen once in 32)
         ("w2-tails", crate::w2::TAILS.len() as u64 * 3 * 2),
+        // the caller's own table handed to rssl's built-in handler, twice
+        ("table", if ctx.tier == Tier::Quick { 600 } else { 6000 }),
     ]
 }
 
@@ -103,6 +105,16 @@ pub fn cases(ctx: &Ctx, section: &str, i: u64) -> Vec<Case> {
             // differ in schedule. Alternates corpus and generated graphs.
             let (label, fs, task) = crate::c08::faulted_scenario(ctx, &mut rng.sub("w4"), i);
             vec![det_case(&label, fs, task, &ctx.corpus, &mut rng, s.min(4))]
+        }
+        "table" => {
+            let g = crate::w3::generate(
+                &mut rng.sub("w3"),
+                crate::w3::Mode::Plain,
+                crate::w3::Form::Compile,
+            );
+            let mut task = crate::w3::compile_task(&g, &mut rng.sub("task"));
+            task.caller_table = true;
+            vec![det_case(&format!("W3:table#{i}"), g.fs.clone(), task, &ctx.corpus, &mut rng, 2)]
         }
         "w2-tails" => {
             let (label, fs, task) = crate::w2::tail_scenario(((i / 3) as usize) % crate::w2::TAILS.len(), (i % 3) as usize);
